@@ -1,13 +1,15 @@
 /-
   StatsCI.Lemmas.WilsonRound — helper lemmas for C02R: forward rounding-error bounds for the
-  Wilson score interval (`Proportion.wilsonCentre`, `wilsonSpan`, `finish`, `ciWilson`) and the
-  Wald interval (`ciZNormal`) of the model at the carrier `RR fl`, against the same functions at
-  exact arithmetic `Rex = RR id`.
+  Wilson score interval (`Proportion.wilsonCentre`, `wilsonSpan`, `finishWilson`, `ciWilson`) and
+  the Wald interval (`ciZNormal`, which ends in `finish`) of the model at the carrier `RR fl`,
+  against the same functions at exact arithmetic `Rex = RR id`.
 
   * `RelErr e x' x`  (`|x' - x| ≤ e·|x|`) and its calculus: one rounded operation, product,
     quotient, sum of non-negative numbers, square root;
   * the chains for the Wilson centre and span (relative errors `6.03 u` and `6.56 u`);
-  * `finish` at a general `fl`, signs and order of the rounded quantities under `Monotone fl`;
+  * `finish` (Wald) and `finishWilson` (Wilson: the two bounds are clamped into `[0, 1]`,
+    `wLo` / `wHi`) at a general `fl`, signs and order of the rounded quantities under
+    `Monotone fl`; every `Ok` result of `ciWilson` has its bounds in `[0, 1]`, for every `fl`;
   * the absolute-error chain for the Wald interval.
 -/
 import StatsCI.Lemmas.Wilson
@@ -404,7 +406,7 @@ theorem flCentre_le_one (hfl : ∀ x, |fl x - x| ≤ u * |x|) (hu0 : 0 ≤ u) (h
   have := hmono h1
   rwa [nat_one hnat (by omega)] at this
 
-/-! ### `finish`, `zValue`, `ciWilson` at a general `fl` -/
+/-! ### `finish`, `finishWilson`, `zValue`, `ciWilson` at a general `fl` -/
 
 /-- the lower bound `finish` hands to `Interval::new` -/
 noncomputable def finLo (fl : ℝ → ℝ) (kd : Kind) (m s : ℝ) : ℝ :=
@@ -449,12 +451,91 @@ theorem finish_eq (conf : Confidence (RR fl)) (m s : RR fl) :
     · have h' : fl (m.val + s.val) < 0 := lt_of_not_ge h
       simp only [RR.gt_iff, RR.zero_val, RR.add_val, h', h, if_false, if_true, liftI]
 
+/-- `Interval::new` at `RR fl` -/
+theorem liftI_new (a b : RR fl) :
+    (liftI (Interval.new a b) : Outcome (Err (RR fl)) (Interval (RR fl))) =
+      if a.val ≤ b.val then .ok (.twoSided ⟨a.val⟩ ⟨b.val⟩) else .err (.interval .invalidBounds) := by
+  by_cases h : a.val ≤ b.val
+  · have h' : ¬ (b.val < a.val) := not_lt.mpr h
+    simp only [Interval.new, RR.gt_iff, h', h, if_false, if_true, liftI]
+  · have h' : b.val < a.val := lt_of_not_ge h
+    simp only [Interval.new, RR.gt_iff, h', h, if_false, if_true, liftI]
+
+/-- the lower bound `finishWilson` (the end of `ci_wilson`) hands to `Interval::new`: the rounded
+    `m - s` clamped from below at `0` (`f64::max`), or the far end `0` -/
+noncomputable def wLo (fl : ℝ → ℝ) (kd : Kind) (m s : ℝ) : ℝ :=
+  match kd with
+  | .lower => 0
+  | _ => max (fl (m - s)) 0
+/-- the upper bound `finishWilson` hands to `Interval::new`: the rounded `m + s` clamped from
+    above at `1` (`f64::min`), or the far end `1` -/
+noncomputable def wHi (fl : ℝ → ℝ) (kd : Kind) (m s : ℝ) : ℝ :=
+  match kd with
+  | .upper => 1
+  | _ => min (fl (m + s)) 1
+
+theorem wLo_nonneg (fl : ℝ → ℝ) (kd : Kind) (m s : ℝ) : 0 ≤ wLo fl kd m s := by
+  cases kd <;> simp only [wLo] <;> first | exact le_max_right _ _ | exact le_rfl
+
+theorem wHi_le_one (fl : ℝ → ℝ) (kd : Kind) (m s : ℝ) : wHi fl kd m s ≤ 1 := by
+  cases kd <;> simp only [wHi] <;> first | exact min_le_right _ _ | exact le_rfl
+
+/-- clamping is the identity on proportions: for `0 ≤ m - s` and `m + s ≤ 1` the bounds of
+    `finishWilson` in exact arithmetic are those of `finish` -/
+theorem wLo_id_eq (kd : Kind) {m s : ℝ} (h : 0 ≤ m - s) : wLo id kd m s = finLo id kd m s := by
+  cases kd <;> simp only [wLo, finLo, id] <;> exact max_eq_left h
+theorem wHi_id_eq (kd : Kind) {m s : ℝ} (h : m + s ≤ 1) : wHi id kd m s = finHi id kd m s := by
+  cases kd <;> simp only [wHi, finHi, id] <;> exact min_eq_left h
+
+/-- `finishWilson` returns its two (clamped) bounds iff they are ordered, else `InvalidBounds` -/
+theorem finishWilson_eq (conf : Confidence (RR fl)) (m s : RR fl) :
+    finishWilson conf m s =
+      if wLo fl conf.kind m.val s.val ≤ wHi fl conf.kind m.val s.val then
+        .ok (.twoSided ⟨wLo fl conf.kind m.val s.val⟩ ⟨wHi fl conf.kind m.val s.val⟩)
+      else .err (.interval .invalidBounds) := by
+  cases conf <;>
+    simp only [finishWilson, Confidence.kind, wLo, wHi, liftI_new, fmax_val, fmin_val, RR.sub_val,
+      RR.add_val, RR.zero_val, RR.one_val] <;> rfl
+
+/-- the end of `ci_wilson` never panics -/
+theorem finishWilson_ne_panic (conf : Confidence (RR fl)) (m s : RR fl) (t : String) :
+    finishWilson conf m s ≠ .panic t := by
+  rw [finishWilson_eq]
+  split <;> simp
+
+/-- whatever `fl` is: an `Ok` result of `finishWilson` is a two-sided interval `[lo, hi]` with
+    `0 ≤ lo ≤ hi ≤ 1` -/
+theorem finishWilson_ok_unit (conf : Confidence (RR fl)) (m s : RR fl) (iv : Interval (RR fl))
+    (h : finishWilson conf m s = .ok iv) :
+    ∃ lo hi : RR fl, iv = .twoSided lo hi ∧ 0 ≤ lo.val ∧ lo.val ≤ hi.val ∧ hi.val ≤ 1 := by
+  rw [finishWilson_eq] at h
+  split at h
+  · rename_i hle
+    injection h with h
+    exact ⟨_, _, h.symm, wLo_nonneg _ _ _ _, hle, wHi_le_one _ _ _ _⟩
+  · cases h
+
+/-- whatever `fl`, the oracle, the confidence (valid or not) and the counts are: an `Ok` result of
+    `ci_wilson` is a two-sided interval `[lo, hi]` with `0 ≤ lo ≤ hi ≤ 1` -/
+theorem ciWilson_ok_unit (crit : Crit (RR fl)) (conf : Confidence (RR fl)) (n k : ℕ)
+    (iv : Interval (RR fl)) (h : ciWilson crit conf n k = .ok iv) :
+    ∃ lo hi : RR fl, iv = .twoSided lo hi ∧ 0 ≤ lo.val ∧ lo.val ≤ hi.val ∧ hi.val ≤ 1 := by
+  simp only [ciWilson] at h
+  split_ifs at h
+  cases hz : zValue crit conf with
+  | ok z =>
+    rw [hz, Outcome.bind_ok] at h
+    exact finishWilson_ok_unit _ _ _ _ h
+  | err e => rw [hz, Outcome.bind_err] at h; cases h
+  | panic t => rw [hz, Outcome.bind_panic] at h; cases h
+
 /-- `ci_wilson` once the count tests are passed and `z_value` has answered `z` -/
 theorem ciWilson_of_domain_fl (crit : Crit (RR fl)) (conf : Confidence (RR fl)) (n k : ℕ)
     (hnat : ∀ m : ℕ, m ≤ n → fl m = m) (hk : 2 ≤ k) (hkn : k + 2 ≤ n) (z : ℝ)
     (hz : zValue crit conf = .ok ⟨z⟩) :
     ciWilson crit conf n k
-      = finish conf (wilsonCentre (⟨n⟩ : RR fl) ⟨k⟩ ⟨z⟩) (wilsonSpan (⟨n⟩ : RR fl) ⟨k⟩ ⟨z⟩) := by
+      = finishWilson conf (wilsonCentre (⟨n⟩ : RR fl) ⟨k⟩ ⟨z⟩)
+          (wilsonSpan (⟨n⟩ : RR fl) ⟨k⟩ ⟨z⟩) := by
   have a : ¬ k > n := by omega
   have b : ¬ k < 2 := by omega
   have c : ¬ n - k < 2 := by omega
@@ -521,54 +602,83 @@ def Close (ε : ℝ) : Interval Rex → Interval (RR fl) → Prop
   | .lower b, .lower b' => |b'.val - b.val| ≤ ε
   | _, _ => False
 
-/-- the bounds `finish` forms from the rounded numbers are within `8 u` of those it forms from
-    the exact numbers (the far ends `1` and `0` coincide) -/
-theorem fin_close (hfl : ∀ x, |fl x - x| ≤ u * |x|) (hu0 : 0 ≤ u) (hu : u ≤ 1 / 1024)
+/-- clamping a computed bound towards `[0, 1]` never moves it away from another clamped bound -/
+theorem abs_max_zero_sub_le (x y : ℝ) : |max x 0 - max y 0| ≤ |x - y| :=
+  abs_max_sub_max_le_abs x y 0
+theorem abs_min_one_sub_le (x y : ℝ) : |min x 1 - min y 1| ≤ |x - y| := by
+  have := abs_min_sub_min_le_max x 1 y 1
+  simpa using this
+
+/-- … nor from an exact bound that is a proportion -/
+theorem abs_max_zero_sub_le' {x y : ℝ} (hy : 0 ≤ y) : |max x 0 - y| ≤ |x - y| := by
+  have := abs_max_zero_sub_le x y
+  rwa [max_eq_left hy] at this
+theorem abs_min_one_sub_le' {x y : ℝ} (hy : y ≤ 1) : |min x 1 - y| ≤ |x - y| := by
+  have := abs_min_one_sub_le x y
+  rwa [min_eq_left hy] at this
+
+/-- the (clamped) bounds `finishWilson` forms from the rounded numbers are within `8 u` of those
+    it forms from the exact numbers (the far ends `1` and `0` coincide) -/
+theorem wfin_close (hfl : ∀ x, |fl x - x| ≤ u * |x|) (hu0 : 0 ≤ u) (hu : u ≤ 1 / 1024)
     (kd : Kind) {c c' s s' : ℝ} (hc : RelErr (6.03 * u) c' c) (hs : RelErr (6.56 * u) s' s)
     (c0 : 0 ≤ c) (hcs : c + |s| ≤ 1) :
-    |finLo fl kd c' s' - finLo id kd c s| ≤ 8 * u ∧
-      |finHi fl kd c' s' - finHi id kd c s| ≤ 8 * u := by
+    |wLo fl kd c' s' - wLo id kd c s| ≤ 8 * u ∧
+      |wHi fl kd c' s' - wHi id kd c s| ≤ 8 * u := by
   obtain ⟨h1, h2⟩ := bound_err hfl hu0 hu hc hs c0 hcs
   have h0 : |(0 : ℝ) - 0| ≤ 8 * u := by simp; linarith
   have h1' : |(1 : ℝ) - 1| ≤ 8 * u := by simp; linarith
+  have g1 : |max (fl (c' - s')) 0 - max (id (c - s)) 0| ≤ 8 * u :=
+    (abs_max_zero_sub_le _ _).trans h1
+  have g2 : |min (fl (c' + s')) 1 - min (id (c + s)) 1| ≤ 8 * u :=
+    (abs_min_one_sub_le _ _).trans h2
   cases kd
-  · exact ⟨h1, h2⟩
-  · exact ⟨h1, h1'⟩
-  · exact ⟨h0, h2⟩
+  · exact ⟨g1, g2⟩
+  · exact ⟨g1, h1'⟩
+  · exact ⟨h0, g2⟩
 
-/-- in exact arithmetic, with `0 ≤ z`, `finish` always gets ordered bounds -/
-theorem fin_ordered_exact (kd : Kind) (n k : ℕ) (hn : 0 < n) (hkn : k ≤ n) {z : ℝ} (hz : 0 ≤ z) :
-    finLo id kd (centre n k z) (span n k z) ≤ finHi id kd (centre n k z) (span n k z) := by
+/-- in exact arithmetic, with `0 ≤ z`, `finishWilson` always gets ordered bounds -/
+theorem wfin_ordered_exact (kd : Kind) (n k : ℕ) (hn : 0 < n) (hkn : k ≤ n) {z : ℝ} (hz : 0 ≤ z) :
+    wLo id kd (centre n k z) (span n k z) ≤ wHi id kd (centre n k z) (span n k z) := by
   obtain ⟨a, b, c, d⟩ := centre_span_facts n k hn hkn z
   have hs : 0 ≤ span (n : ℝ) k z := span_nonneg _ _ _ (by exact_mod_cast hn) hz
-  cases kd <;> simp only [finLo, finHi, id] <;> linarith
+  rw [abs_of_nonneg hs] at c d
+  cases kd <;> simp only [wLo, wHi, id]
+  · exact max_le (le_min (by linarith) (by linarith)) (le_min (by linarith) zero_le_one)
+  · exact max_le (by linarith) zero_le_one
+  · exact le_min (by linarith) zero_le_one
 
 /-- with a monotone rounding function and `0 ≤ z`, so does it at `RR fl` -/
-theorem fin_ordered_fl (hfl : ∀ x, |fl x - x| ≤ u * |x|) (hu0 : 0 ≤ u) (hu1 : u ≤ 1)
+theorem wfin_ordered_fl (hfl : ∀ x, |fl x - x| ≤ u * |x|) (hu0 : 0 ≤ u) (hu1 : u ≤ 1)
     (hmono : Monotone fl) (kd : Kind) (n k : ℕ) (hnat : ∀ m : ℕ, m ≤ n → fl m = m) (hn : 2 ≤ n)
     (hkn : k ≤ n) {z : ℝ} (hz : 0 ≤ z) :
-    finLo fl kd (flCentre fl n k z) (flSpan fl n k z)
-      ≤ finHi fl kd (flCentre fl n k z) (flSpan fl n k z) := by
+    wLo fl kd (flCentre fl n k z) (flSpan fl n k z)
+      ≤ wHi fl kd (flCentre fl n k z) (flSpan fl n k z) := by
   have hs := flSpan_nonneg hfl hu1 n k hz
   have hc0 := flCentre_nonneg hfl hu1 n k z
   have hc1 := flCentre_le_one hfl hu0 hu1 hmono n k hnat hn hkn z
-  cases kd <;> simp only [finLo, finHi]
-  · exact hmono (by linarith)
-  · have := hmono (show flCentre fl n k z - flSpan fl n k z ≤ 1 by linarith)
+  have o1 : fl (flCentre fl n k z - flSpan fl n k z) ≤ fl (flCentre fl n k z + flSpan fl n k z) :=
+    hmono (by linarith)
+  have o2 : fl (flCentre fl n k z - flSpan fl n k z) ≤ 1 := by
+    have := hmono (show flCentre fl n k z - flSpan fl n k z ≤ 1 by linarith)
     rwa [nat_one hnat (by omega)] at this
-  · exact fl_nonneg hfl hu1 (by linarith)
+  have o3 : 0 ≤ fl (flCentre fl n k z + flSpan fl n k z) := fl_nonneg hfl hu1 (by linarith)
+  cases kd <;> simp only [wLo, wHi]
+  · exact max_le (le_min o1 o2) (le_min o3 zero_le_one)
+  · exact max_le o2 zero_le_one
+  · exact le_min o3 zero_le_one
 
-/-- `ci_wilson` on its domain, at any `fl`: the pair of bounds if ordered, else `InvalidBounds` -/
+/-- `ci_wilson` on its domain, at any `fl`: the pair of clamped bounds if ordered, else
+    `InvalidBounds` -/
 theorem ciWilson_eq_fl (crit : Crit (RR fl)) (conf : Confidence (RR fl)) (n k : ℕ)
     (hnat : ∀ m : ℕ, m ≤ n → fl m = m) (hk : 2 ≤ k) (hkn : k + 2 ≤ n) (z : ℝ)
     (hz : zValue crit conf = .ok ⟨z⟩) :
     ciWilson crit conf n k =
-      if finLo fl conf.kind (flCentre fl n k z) (flSpan fl n k z)
-          ≤ finHi fl conf.kind (flCentre fl n k z) (flSpan fl n k z) then
-        .ok (.twoSided ⟨finLo fl conf.kind (flCentre fl n k z) (flSpan fl n k z)⟩
-                       ⟨finHi fl conf.kind (flCentre fl n k z) (flSpan fl n k z)⟩)
+      if wLo fl conf.kind (flCentre fl n k z) (flSpan fl n k z)
+          ≤ wHi fl conf.kind (flCentre fl n k z) (flSpan fl n k z) then
+        .ok (.twoSided ⟨wLo fl conf.kind (flCentre fl n k z) (flSpan fl n k z)⟩
+                       ⟨wHi fl conf.kind (flCentre fl n k z) (flSpan fl n k z)⟩)
       else .err (.interval .invalidBounds) := by
-  rw [ciWilson_of_domain_fl crit conf n k hnat hk hkn z hz, finish_eq]
+  rw [ciWilson_of_domain_fl crit conf n k hnat hk hkn z hz, finishWilson_eq]
 
 end wilson
 
@@ -619,7 +729,8 @@ theorem badFl_not_monotone : ¬ Monotone badFl := by
 /-- the witness: `n = 4`, `k = 2`, a two-sided request at level `1/2` answered by `z = 1/4096`.
     In exact arithmetic the interval is `[1/2 - s, 1/2 + s]` with `0 < s < 1/8000`; at `RR badFl`
     every intermediate value is untouched, the lower bound `1/2 - s` is inflated above the upper
-    bound `1/2 + s`, and `Interval::new` rejects the pair. -/
+    bound `1/2 + s`, the clamp into `[0, 1]` moves neither of them (both lie strictly between `0`
+    and `1`), and `Interval::new` rejects the pair. -/
 theorem badFl_ciWilson :
     ciWilson (constCrit (1 / 4096) : Crit (RR badFl)) (.twoSided ⟨1 / 2⟩) 4 2
       = .err (.interval .invalidBounds) := by
@@ -677,10 +788,12 @@ theorem badFl_ciWilson :
   have hlo : badFl (1 / 2 - t) = (1 / 2 - t) * (1 + 1 / 1024) :=
     badFl_in (by linarith) (by linarith)
   have hhi : badFl (1 / 2 + t) = 1 / 2 + t := badFl_out (Or.inr (by linarith))
-  have hlt : ¬ (finLo badFl (Confidence.kind (.twoSided (⟨1 / 2⟩ : RR badFl))) (1 / 2) t
-      ≤ finHi badFl (Confidence.kind (.twoSided (⟨1 / 2⟩ : RR badFl))) (1 / 2) t) := by
-    simp only [Confidence.kind, finLo, finHi, hlo, hhi]
+  have hlt : ¬ (wLo badFl (Confidence.kind (.twoSided (⟨1 / 2⟩ : RR badFl))) (1 / 2) t
+      ≤ wHi badFl (Confidence.kind (.twoSided (⟨1 / 2⟩ : RR badFl))) (1 / 2) t) := by
+    simp only [Confidence.kind, wLo, wHi, hlo, hhi]
     intro h
+    have h1 := (le_max_left ((1 / 2 - t) * (1 + 1 / 1024)) 0).trans h
+    have h2 := h1.trans (min_le_left _ _)
     linarith
   rw [if_neg hlt]
 
